@@ -240,8 +240,20 @@ def handwritten():
          "nested": head + "    if x == y:\n        c = c + 1\n    else:\n        if x == z:\n            c = c + 2\n        else:\n            c = c + 4\n        end\n    end\n"
                           "    if x == lo:\n        d = d + 1\n    else:\n        if x == mid:\n            d = d + 2\n        else:\n            d = d + 4\n        end\n    end\n"
                           "    if h == 0.5:\n        w = w + 1\n    else:\n        if h == 1/2:\n            w = w + 2\n        else:\n            w = w + 4\n        end\n    end\nend\n"}
+    # a signed atom in redundant parentheses as the base of a power, as a factor and as a subtrahend
+    TC = {"vars": ["u", "w", "x", "y"], "s0": {}, "guard": ("true",),
+          "init": [asg("x", [(F(1), ONE)]), asg("y", []), asg("u", []), asg("w", [(F(1), ONE)])],
+          "body": [choice("x", (F(1, 2), 1), (F(1, 2), 2)),
+                   asg("y", [(F(1), V("y")), (F(1), V("x", 2))]),                         # y + (-x)**2
+                   asg("u", [(F(1), V("u")), (F(-1), V("x", 3)), (F(2), V("x"))]),        # u + (-x)**3 - 2*(-x)
+                   asg("w", [(F(9), V("w")), (F(-16), ONE), (F(1), V("x"))])]}            # w*(-3)**2 - (-2)**4 - (-x)
+    head_c = "x = 1\ny = 0\nu = 0\nw = 1\nwhile true:\n    x = 1 {1/2} 2\n"
+    Cc = {"signed_parens": head_c + "    y = y + (-x)**2\n    u = u + (-x)**3 - 2*(-x)\n    w = w*(-3)**2 - (-2)**4 - (-x)\nend\n",
+          "double_parens": head_c + "    y = y + ((-x))**2\n    u = u + ((-x))**3 - 2*((-x))\n    w = w*((-3))**2 - ((-2))**4 - ((-x))\nend\n",
+          "plain": head_c + "    y = y + x**2\n    u = u - x**3 + 2*x\n    w = 9*w - 16 + x\nend\n"}
     items = []
-    for name, T, texts, goals in (("decimal_div_pow", TA, A, ["x", "y", "z", "x*y"]), ("elif_not_a_switch", TB, B, ["c", "d", "w", "c*d", "c**2"])):
+    for name, T, texts, goals in (("decimal_div_pow", TA, A, ["x", "y", "z", "x*y"]), ("elif_not_a_switch", TB, B, ["c", "d", "w", "c*d", "c**2"]),
+                                  ("signed_atoms", TC, Cc, ["y", "u", "w", "x*y"])):
         for sp, text in texts.items():
             items.append({"id": f"hand-{name}-{sp}", "text": text, "T": T, "params": [], "types": None, "points": [{}], "goals": goals,
                           "origin": f"hand-written spelling {name}/{sp}"})
